@@ -455,7 +455,11 @@ type kmsView struct {
 var _ appencryption.KeyManagementService = (*kmsView)(nil)
 
 func (v *kmsView) EncryptKey(_ context.Context, key []byte) ([]byte, error) {
-	c, f := v.w.enter("kms.enc", v.proc, refimpl.FP(key), 0)
+	logID := refimpl.FP(key)
+	if v.w.RealSecrets != 0 {
+		logID = "-" // real secure memory draws its own randomness: keep it out of the event log
+	}
+	c, f := v.w.enter("kms.enc", v.proc, logID, 0)
 	v.w.KMS.Wrapped[refimpl.FP(key)]++
 	v.w.scanLeak("kms-request", key, true)
 	if f == FErrBefore {
